@@ -472,7 +472,14 @@ def registry_kwargs(cfg, mode):
     if fam in ("qam", "pam"):
         return {"order": cfg[1], "gray_coding": cfg[2] == "gray", "normalize": cfg[3] == "norm"}
     if fam == "pi4qpsk":
-        return {"gray_coded": cfg[1] == "gray"} if mode == "modulator" else {}
+        if mode == "demodulator":
+            import inspect
+
+            from kaira.modulations.pi4qpsk import Pi4QPSKDemodulator
+
+            if "gray_coded" not in inspect.signature(Pi4QPSKDemodulator.__init__).parameters:
+                return {}  # trees before the fix: the demodulator has no labelling option
+        return {"gray_coded": cfg[1] == "gray"}
     return {}
 
 
